@@ -99,6 +99,16 @@ CLAIMED = {
              "interpreter that a started Task equals its eager twin and that cancellation runs no value callback, and every "
              "program is executed on the real Task API (nothing may run before the start).",
         note=SEQ_NOTE, design="7/C12", technique="TLA+ reference interpreter; TLC-enumerated programs replayed on the code"),
+    "C17": dict(
+        text="FiberSched.tla defines every scheduling decision of the fiber scheduler as a function of (list contents, random "
+             "draw, pick width) and TLC checks the function is total; four client programs (thread pool + WhenAll, strand, "
+             "timed waits, coroutines with Mutex) run under the backend's own seeded scheduler with observation hooks, every "
+             "recorded draw / pick / resumption / injected yield is validated against FiberSched_Trace by TLC, and the "
+             "normalised decision traces and results are compared pairwise: two fresh processes, the same process after "
+             "SetSeed + injector reset, and fresh processes restored from every recorded (random-count, injector-state) pair.",
+        note="grid of seeds x frequencies {2,3,4,5,16} x widths {1,2,3,10}; fiber ids normalised by first appearance; "
+             "trusted: TLC, observation hooks, harness/sc_repro.cpp", design="7/C17",
+        technique="TLA+ decision function + TLC trace validation of recorded scheduler decisions; differential re-execution"),
     "C18": dict(
         text="FiberSync.tla states the std contracts (compatibility of holders, success / failure conditions of try and "
              "timed acquisitions, wait / notify, sleep, join, TLS) as a state machine over begin / end observations of API "
@@ -167,8 +177,8 @@ def main():
         f.write("\n")
 
 
-HOOK_COMMITS = ["286d692", "d1e7f53"]
-FIX_COMMITS = ["8086256", "48cc44a", "6c036e9", "8faf037", "f30eead", "d8002b9", "fc2e11e"]
+HOOK_COMMITS = ["286d692", "d1e7f53", "baaa718"]
+FIX_COMMITS = ["8086256", "48cc44a", "6c036e9", "8faf037", "f30eead", "d8002b9", "fc2e11e", "6ed24f0"]
 
 if __name__ == "__main__":
     main()
